@@ -19,12 +19,12 @@ REQUIRED = ["Angle.__init__", "Angle.reduce_deg", "Angle.reduce_dms", "Angle.dms
             "Angle.__rmod__", "Angle.__rpow__"]
 THEOREMS = ["C03_reduce_deg_ideal", "C03_reduction_spec", "C03_construct_ideal", "C03_sexagesimal_ideal",
             "C03_operators_ideal", "C03_division_by_zero_ideal", "C03_unary_compare_ideal",
-            "C03_views_ideal", "C03_grid_b64"]
+            "C03_views_ideal", "C03_grid_b64", "C03_reduce_deg_b64"]
 PROOF_TIMEOUT = {"quick": 1500, "thorough": 3000}
 EXHAUSTIVE = False
 MANIFEST = {
     "category": "proof",
-    "text": ("Ideal (real-arithmetic) instance of the regenerated Angle model, for ALL real inputs: reduce_deg = "
+    "text": ("reduce_deg proved EXACT (= red360, no rounding) in binary64 for every finite float (Flocq bridge).  Ideal (real-arithmetic) instance of the regenerated Angle model, for ALL real inputs: reduce_deg = "
              "sign(x)(|x| - 360 floor(|x|/360)) (strictly inside (-360,360), sign of x, congruent mod 360); Angle(x) / "
              "radians / ra; sexagesimal: reduce_dms = explicit branch function with the sign of any piece for all real pieces, value formula for canonical pieces, tuple = list = separate arguments; every operator "
              "incl. reflected and in-place = Angle(reduce(a op b)), division by a zero divisor raises ZeroDivisionError; "
@@ -41,11 +41,11 @@ EXPLANATION = ("The Angle model regenerated from /repo is read (a) over the real
                "forms, the operators, to_positive, rad and get_ra are characterised for ALL real inputs by closed "
                "formulas (theorems *_ideal; says nothing about rounding), and (b) in binary64, where range, sign and "
                "exact agreement with the rational reduction are checked by the Coq kernel on an explicit finite "
-               "boundary grid (C03_grid_b64).  All-floats range (DESIGN T3) is not proved; it is covered by the grid "
-               "and by the search oracle.")
+               "boundary grid (C03_grid_b64).  reduce_deg is additionally proved exact for EVERY finite float "
+               "(C03_reduce_deg_b64, Flocq bridge); to_positive / dms2deg / set_ra for all floats are covered by the grid and the search oracle.")
 CLAUSES = {
     "reduce_deg(x) = sign(x)*(|x| - 360*floor(|x|/360)), strictly inside (-360,360), sign of x, congruent mod 360, unique such value":
-        "proved [ideal, all real x and all ints: C03_reduce_deg_ideal + C03_reduction_spec]; proved [B64, FINITE grid: k*360 +- 0..2 ulp and k*360 +- 1 as int for |k|<=40, denormals, +-1 ulp around 0, 1e15-magnitude, ints to 1e15: exact equality with the rational reduction, C03_grid_b64]; all floats: unproved (searched)",
+        "proved [ideal, all real x and all ints: C03_reduce_deg_ideal + C03_reduction_spec]; proved [B64, FINITE grid: k*360 +- 0..2 ulp and k*360 +- 1 as int for |k|<=40, denormals, +-1 ulp around 0, 1e15-magnitude, ints to 1e15: exact equality with the rational reduction, C03_grid_b64]; proved [B64, EVERY finite float: C03_reduce_deg_b64 - the returned float is finite and its real value is exactly red360 of the value of x, hence |.| < 360 and sign kept; Flocq-based lib/B64Verified.v, contributed by the C11 worker]",
     "Angle(x), Angle(x, radians=True), Angle(x, ra=True), 1-tuple/1-list, copy, no argument":
         "proved [ideal, all real x / ints: C03_construct_ideal]; B64: grid (25 h RA etc.) + search",
     "sexagesimal input: reduce_dms is the explicit branch function of |d|,|m|,|s| with sign -1 iff any piece negative":
@@ -66,13 +66,13 @@ CLAUSES = {
     "unary -, abs, round(n); comparisons = comparisons of the values, == within the left operand's tolerance": "proved [ideal: C03_unary_compare_ideal]; searched",
     "to_positive in [0,360), congruent": "proved [ideal, all stored values in (-360,360): C03_views_ideal]; proved [B64, grid incl. -1e-20, -5e-324, -2^-45, -359.99999999999994]; searched",
     "rad = deg*pi/180, get_ra = deg/15, float(a) = a()": "proved [ideal: C03_views_ideal]; searched",
-    "binary64 rounding of the arithmetic (1e-9 degree scaled with magnitude) for all floats": "unproved (searched): needs the Flocq monotonicity library (DESIGN T3)",
+    "binary64 rounding of the arithmetic (1e-9 degree scaled with magnitude) for all floats": "reduce_deg itself: proved exact for every finite float (C03_reduce_deg_b64); the single rounding of a op b, to_positive, dms2deg and set_ra for all floats: unproved (grid + searched)",
 }
 
 
 def proof_files(tier):
     return ["C03_defs.v", "C03_tac.v", "C03_reduce.v", "C03_construct.v", "C03_forms.v", "C03_dms.v", "C03_ops.v",
-            "C03_grid.v", "C03.v"]
+            "C03_grid.v", "C03_reduce_b64.v", "C03.v"]
 
 
 # ----------------------------------------------------------------------------------------------
